@@ -3097,6 +3097,15 @@ package gocql
 //@   ensures len(h) == 0 ==> result == nil
 //@   ensures result != nil ==> forall(b, 0 <= b && b < len(result.hosts), result.hosts[b] != nil)
 
+// the step math/rand.Shuffle repeats: a swap of two positions of the working copy (so the result is a permutation
+// of the input whatever the random source does); the input slice is not touched
+//@ func shuffleHosts$1
+//@   props C11
+//@   requires 0 <= i && i < len(*shuffled) && 0 <= j && j < len(*shuffled)
+//@   ensures (*shuffled)[i] == old((*shuffled)[j]) && (*shuffled)[j] == old((*shuffled)[i])
+//@   ensures forall(k, 0 <= k && k < len(*shuffled) && k != i && k != j, (*shuffled)[k] == old((*shuffled)[k]))
+//@   ensures len(*shuffled) == old(len(*shuffled))
+
 //@ func shuffleHosts
 //@   trusted math/rand.Shuffle permutes: same length, same elements; the input is not modified
 //@   modifies nothing
